@@ -97,7 +97,7 @@ PROPS["C05"] = {
         "the cursor and sizes passed at run time are those of the layout (compiler half of C05, not covered)",
     ],
     "not_covered": [
-        "compiler half, the part that is NOT under contract: that the recursive generator (eval_expr and its ~40 arms) threads the returned cell lists in evaluation order (the induction hypothesis of unit mirgen_state is assumed for eval_expr / eval_args), the if / match arms that balance the branches' state sizes, the copy of the returned list into Function::state_skeleton, and the translation of the MIR state instructions by bytecodegen / wasmgen",
+        "compiler half, the part that is NOT under contract: that the recursive generator (eval_expr and its ~40 arms) threads the returned cell lists in evaluation order (the induction hypothesis of unit mirgen_state is assumed for eval_expr / eval_args), the three `match` implementations (eval_union_match, eval_match, compile_decision_tree: repaired for findings F9-F11, replayed by `ffi_replay branch-state`, but not under contract), the copy of the returned list into Function::state_skeleton, and the translation of the MIR state instructions by bytecodegen / wasmgen",
         "state_get_host / state_set_host (copy through wasmtime linear memory)",
     ],
     "explanation": "C05 compile-time half (unit mirgen_state): generator invariant `cursor reached by the emitted code == push_sum` and `push_sum + pending move == total size of the cells returned so far`; every carrier that creates a cell keeps it AND emits the cell's instruction at exactly the cursor the returned layout (prefix sums in list order) assigns to that cell's own entry: emit_fncall (call of a stateful function: the callee's whole layout is one cell), the delay arm (arguments' cells first, then the delay), the mem arm, the Feed arm (`self`: read before the body, so its entry comes first -- finding F7, repaired); consume_and_insert_pushoffset emits the pending move exactly once; the function epilogue pops exactly push_sum, i.e. the cursor is back at the origin. C05 run-time half: (i) layout arithmetic (total_size, path_to_address = prefix sums, children tile the parent: lemma_addr_in_bounds, lemma_node_push) proved in Verus; (ii) each run-time primitive touches exactly the words of the cell at the cursor (Kani, bit-precise; for the WASM host functions additionally proved in Verus for a storage of ANY length: unit wasm_state -- cursor moves change only the cursor, mem swaps exactly the word at the cursor, delay performs exactly the one-step ring-buffer function on the cell's 2+len words, refused lengths change nothing, no lazy growth inside a layout-sized storage); (iii) VM and WASM host primitives perform the same transformation of the flat words (Kani relational harnesses); (iii') the VM instruction arms themselves (cut from Machine::execute) touch exactly their destination registers and the cell at the cursor, and the Mem / Delay arms agree bit for bit with the WASM host functions; (iv) k-step delay history lemma over the one-step spec (Verus unit delay_history: feeding x0,x1,.. and reading with delay d in [1,len-1] returns x[k-d], 0 before that).",
